@@ -176,8 +176,9 @@ def generate(cfgname, **kw):
     return gen, head[0], cases
 
 
-def negative_controls(out):
-    res = kit.run_tlc("C17_Gen", NEG_CFG, workers=2, heap="2g", continue_=True)
+def negative_controls(out, res=None):
+    if res is None:
+        res = kit.run_tlc("C17_Gen", NEG_CFG, workers=2, heap="2g", continue_=True)
     seen = set(res.invariant_violated)
     missing = sorted(set(NEG_MUST) - seen)
     if missing:
@@ -196,7 +197,9 @@ def signature(v):
 def judge(recs, wd, out):
     # few, larger JVM runs: the machine-wide TLC slots are shared with other checks
     shards = kit.write_shards(recs, wd / "trace", "c17", max(500, min(6000, len(recs) // 2 + 1)))
-    verdicts, st, tr = kit.judge_shards("C17_Judge", "C17_Judge", shards, jvms=2, workers=8)
+    big = len(recs) >= 20000
+    verdicts, st, tr = kit.judge_shards("C17_Judge", "C17_Judge", shards,
+                                         jvms=4 if big else 2, workers=4 if big else 8)
     out.states += st
     out.transitions += tr
     if sorted(v["id"] for v in verdicts) != sorted(r["id"] for r in recs):
@@ -256,7 +259,9 @@ def account(cases, recs, hellos, out):
 
 def run(tier, seed, out):
     wd = kit.fresh_workdir("C17")
-    negative_controls(out)
+    # the negative control is independent of the rest: its JVM runs alongside
+    negpool = cf.ThreadPoolExecutor(max_workers=1)
+    negfut = negpool.submit(kit.run_tlc, "C17_Gen", NEG_CFG, workers=2, heap="2g", continue_=True)
     gen, head, cases = generate(f"C17_Gen_{tier}")
     out.add_tlc(gen)
     kit.log(f"C17: TLC generated {len(cases)} schedules ({gen.distinct} states, {gen.wall:.1f}s)")
@@ -280,6 +285,8 @@ def run(tier, seed, out):
     t0 = time.time()
     verdicts = judge(recs, wd, out)
     kit.log(f"C17: TLC judged {len(verdicts)} traces ({time.time() - t0:.1f}s)")
+    negative_controls(out, negfut.result())
+    negpool.shutdown()
     classify(verdicts, recs, cases, out)
     account(cases, recs, hellos, out)
     pick = [r for r in recs if r["np"] == 3][:1] + recs[:: max(1, len(recs) // 2)][:2]
@@ -289,7 +296,7 @@ def run(tier, seed, out):
                     "recorded_events": [{k: v for k, v in e.items() if k not in ("y", "s", "args") or v}
                                         for e in r["evs"]]} for r in pick]
     out.rule = ("TLC enumerates (instantiation = two catalogue entries x pickle protocol x interpreter "
-                "configuration tuple) x every history of Build/Hash/Pickle/Unpickle/Eq/DictGet commands "
+                "configuration tuple) x every history of Build/Hash/Pickle/Unpickle/Eq/DictGet/ContGet commands "
                 "up to the instantiation's depth, one representative per class of histories equal up to "
                 "reordering independent commands of different processes, each completed by a closing "
                 "audit; thorough adds -simulate random histories over 3 processes.  A case is one "
